@@ -30,9 +30,23 @@ impl<F> RankCalc<F> {
             })
             .collect::<VecDeque<FnId>>();
 
+        #[cfg(feature = "verif_hooks")]
+        crate::verif_hooks::rank_pops_reset();
+
         while let Some(fn_id) = fn_ids.pop_front() {
             let fn_rank = ranks[fn_id.index()];
             let child_rank_maybe = fn_rank + 1;
+
+            #[cfg(feature = "verif_hooks")]
+            if crate::verif_hooks::rank_pops_inc() <= 4096 {
+                crate::verif_hooks::emit(|| {
+                    format!(
+                        r#"{{"ev":"rank_pop","f":{},"rank":{}}}"#,
+                        fn_id.index() + 1,
+                        fn_rank.0
+                    )
+                });
+            }
 
             graph
                 .children(fn_id)
